@@ -380,7 +380,7 @@ class Fn:
                 return None
         return None
 
-    def reachable_flag_sensitive(self, start, env=None, avoid=()):
+    def reachable_flag_sensitive(self, start, env=None, avoid=(), avoid_edges=()):
         """Blocks reachable from `start`, pruning switch edges that contradict the known value of a boolean flag
         local (a local only ever assigned literal true/false)."""
         flags = self.flag_locals()
@@ -406,7 +406,8 @@ class Fn:
                 if f is not None and f in env_d:
                     v = env_d[f]
                     tgt = dict(zip(t["values"], t["targets"])).get(v, t["otherwise"])
-                    st.append((tgt, frozenset(env_d.items())))
+                    if (b, tgt) not in avoid_edges:
+                        st.append((tgt, frozenset(env_d.items())))
                     continue
                 if f is not None:
                     for v, tg in zip(t["values"], t["targets"]):
@@ -419,7 +420,8 @@ class Fn:
                     st.append((t["otherwise"], frozenset(e2.items())))
                     continue
             for sx in self.succ(b):
-                st.append((sx, frozenset(env_d.items())))
+                if (b, sx) not in avoid_edges:
+                    st.append((sx, frozenset(env_d.items())))
         return out
 
     def cfg_path(self, src, dst, avoid=()):
@@ -1318,7 +1320,7 @@ def outcome_arms(fn, call_site):
     move of it."""
     t = fn.blocks[call_site.b]["term"]
     if t["k"] != "call":
-        return {"ok": [], "err": [], "switch": []}
+        return {"ok": [], "err": [], "switch": [], "ok_edges": [], "err_edges": []}
     carriers = {t["dst"]["l"]}
     # follow Try::branch(move dst) and plain moves
     changed = True
@@ -1338,15 +1340,54 @@ def outcome_arms(fn, call_site):
                     if p and not p["p"] and p["l"] in carriers:
                         carriers.add(l)
                         changed = True
+    # shared references to a carrier (`if let Err(e) = &res`, `res.is_ok()`)
+    refs = set()
+    changed = True
+    while changed:
+        changed = False
+        for b, i, s in fn.stmts():
+            if s["k"] != "assign" or s["dst"]["p"] or s["dst"]["l"] in refs:
+                continue
+            rv = s["rv"]
+            if rv["k"] == "ref" and not rv.get("mut"):
+                pl = rv["place"]
+                if (pl["l"] in carriers and not pl["p"]) or (pl["l"] in refs and pl["p"] == ["deref"]):
+                    refs.add(s["dst"]["l"])
+                    changed = True
+            elif rv["k"] == "use":
+                pl = op_place(rv["a"])
+                if pl and not pl["p"] and pl["l"] in refs:
+                    refs.add(s["dst"]["l"])
+                    changed = True
     discr_locals = {}
     for b, i, s in fn.stmts():
         if s["k"] == "assign" and s["rv"]["k"] == "discr":
             pl = s["rv"]["place"]
-            if pl["l"] in carriers and not pl["p"]:
+            if (pl["l"] in carriers and not pl["p"]) or (pl["l"] in refs and pl["p"] == ["deref"]):
                 # which discriminant value means "succeeded": Result Ok = 0, ControlFlow Continue = 0, Option Some = 1
-                ty = fn.local_ty(pl["l"])
+                ty = fn.local_ty(pl["l"]).lstrip("&")
                 discr_locals[s["dst"]["l"]] = 1 if ty.startswith("core::option::Option<") else 0
-    out = {"ok": [], "err": [], "switch": []}
+    # boolean outcome tests: is_ok / is_some (true = succeeded), is_err / is_none (false = succeeded); `!x` flips
+    for b, t in fn.calls():
+        cal = callee_of(t)
+        if cal.endswith(("Result::<T, E>::is_ok", "Option::<T>::is_some", "Result::<T, E>::is_err", "Option::<T>::is_none")) and t["args"] and \
+                op_local(t["args"][0]) in refs and not t["dst"]["p"]:
+            discr_locals[t["dst"]["l"]] = 1 if cal.endswith(("is_ok", "is_some")) else 0
+    changed = True
+    while changed:
+        changed = False
+        for b, i, s in fn.stmts():
+            if s["k"] != "assign" or s["dst"]["p"] or s["dst"]["l"] in discr_locals:
+                continue
+            rv = s["rv"]
+            if rv["k"] == "use" and op_local(rv["a"]) in discr_locals and not op_place(rv["a"])["p"] and \
+                    fn.local_ty(op_local(rv["a"])) == "bool":
+                discr_locals[s["dst"]["l"]] = discr_locals[op_local(rv["a"])]
+                changed = True
+            elif rv["k"] == "unop" and rv.get("op") == "Not" and op_local(rv["a"]) in discr_locals and fn.local_ty(op_local(rv["a"])) == "bool":
+                discr_locals[s["dst"]["l"]] = 1 - discr_locals[op_local(rv["a"])]
+                changed = True
+    out = {"ok": [], "err": [], "switch": [], "ok_edges": [], "err_edges": []}
     preds = fn.preds()
     for b in fn.reachable():
         tt = fn.blocks[b]["term"]
@@ -1365,6 +1406,8 @@ def outcome_arms(fn, call_site):
         if errb is None and okv in vals:
             errb = tt["otherwise"]
         for blk, name in ((okb, "ok"), (errb, "err")):
+            if blk is not None:
+                out[name + "_edges"].append((b, blk))
             if blk is not None and set(preds.get(blk, [])) == {b}:
                 out[name].append(blk)
     return out
